@@ -94,6 +94,9 @@ pub mod step {
         pub kind: [Tk; 2],
         pub len: [usize; 2],
         pub skip: [usize; 2],
+        /// false = a lexer that never touches the layout (Layout-rule mode: `skip_ws` off; the
+        /// layout is only ever set by the layout parser) and skips nothing
+        pub sets_layout: bool,
     }
     pub struct One<'i>(Option<Token<'i, [u8], Tk>>);
     impl<'i> Iterator for One<'i> {
@@ -109,11 +112,13 @@ pub mod step {
             self.calls.set(n + 1);
             let c = if n == 0 { 0 } else { 1 };
             let p0 = context.position();
-            if self.skip[c] > 0 {
-                context.set_layout_ahead(Some(&input[p0.pos..p0.pos + self.skip[c]]));
-                context.set_position(Position { pos: p0.pos + self.skip[c] });
-            } else {
-                context.set_layout_ahead(None);
+            if self.sets_layout {
+                if self.skip[c] > 0 {
+                    context.set_layout_ahead(Some(&input[p0.pos..p0.pos + self.skip[c]]));
+                    context.set_position(Position { pos: p0.pos + self.skip[c] });
+                } else {
+                    context.set_layout_ahead(None);
+                }
             }
             let p = context.position();
             Box::new(One(if self.found[c] {
@@ -195,6 +200,7 @@ pub mod step {
         pub tl: usize,
         pub nonempty_last: bool,
         pub layout: bool,
+        pub passive_lexer: bool,
     }
 
     /// K = number of items on the parse stack before the step.
@@ -240,7 +246,11 @@ pub mod step {
         let tk2 = Tk(kani::any());
         let found0: bool = kani::any();
         let nl_found: bool = kani::any();
-        let lexer = SymLexer { calls: Cell::new(0), found: [found0, nl_found], kind: [tk, tk2], len: [tl, nl_len], skip: [skip0, skip1] };
+        let sets_layout: bool = kani::any();
+        if !sets_layout {
+            kani::assume(skip0 == 0 && skip1 == 0);
+        }
+        let lexer = SymLexer { calls: Cell::new(0), found: [found0, nl_found], kind: [tk, tk2], len: [tl, nl_len], skip: [skip0, skip1], sets_layout };
         let p = cs_b + skip0; // start of the first lookahead
         let layout0: Option<&[u8]> = if skip0 > 0 { Some(&INPUT[cs_b..p]) } else { None };
 
@@ -291,6 +301,9 @@ pub mod step {
                             assert!(def.asked2.get() == Some((tgt, tk2)), "C02 after a shift the parser is in the target state with the next lookahead");
                             assert!(context.position().pos == p + tl + skip1, "C13 position advances by the token (and the layout skipped after it)");
                             assert!(context.span().start.pos == p && context.span().end.pos == p + tl, "C13 context span = span of the shifted token");
+                            if skip1 == 0 {
+                                assert!(context.layout_ahead().is_none(), "C14 a token that directly follows the previous one has no layout before it (no stale layout)");
+                            }
                         } else {
                             assert!(r.is_err(), "C12 no lookahead after the shift is an error");
                         }
@@ -337,7 +350,7 @@ pub mod step {
             }
         }
         drop(b);
-        let facts = Facts { which, ok: r.is_ok() && found0, rlen, tl, nonempty_last: cs_a < cs_b, layout: skip0 > 0 };
+        let facts = Facts { which, ok: r.is_ok() && found0, rlen, tl, nonempty_last: cs_a < cs_b, layout: skip0 > 0, passive_lexer: !sets_layout };
         std::mem::forget(r);
         std::mem::forget(parser);
         facts
@@ -363,6 +376,7 @@ pub mod step {
             kani::cover!($f.ok && $f.which == 1 && $f.rlen == 0 && $f.nonempty_last && $f.layout, "empty reduction after a non-empty token, layout before the lookahead");
             kani::cover!($f.ok && $f.which == 1 && $f.rlen + 1 == $k && $f.layout, "reduction of everything above the bottom state, layout before the lookahead");
             kani::cover!($f.ok && $f.which == 2, "accept");
+            kani::cover!($f.ok && $f.which == 0 && $f.passive_lexer, "shift with a lexer that never touches the layout (Layout-rule mode)");
         };
     }
     step!(step_1, 1, false);
